@@ -89,3 +89,40 @@ pub fn relate_sections(x: &ElfSection, y: &ElfSection) -> Val {
     })
     .map_or(Val::Panic, Val::B)
 }
+
+/// For an ELF-sections tag image: one companion tag per section-header slot
+/// (at most 8) that holds a single header with the same leading bytes in the
+/// *other* entry size (40 <-> 64). A section of the original and the section
+/// of its companion have equal leading bytes but different lengths - what a
+/// comparison must not be confused by.
+pub fn elf_twins(raw: &[u8]) -> Vec<crate::bytes::Aligned> {
+    use crate::bytes::*;
+    let mut out = Vec::new();
+    if raw.len() < 20 {
+        return out;
+    }
+    let size = (le32(raw, 4) as usize).min(raw.len());
+    let n = le32(raw, 8) as usize;
+    let es = le32(raw, 12) as usize;
+    if size < 20 || (es != 40 && es != 64) {
+        return out;
+    }
+    let other = 104 - es;
+    let slots = n.min((size - 20) / es).min(8);
+    for e in 0..slots {
+        let src = &raw[20 + e * es..20 + (e + 1) * es];
+        let mut body = vec![0u8; 12 + other];
+        put32(&mut body, 0, 1);
+        put32(&mut body, 4, other as u32);
+        put32(&mut body, 8, 0);
+        let k = es.min(other);
+        body[12..12 + k].copy_from_slice(&src[..k]);
+        for i in k..other {
+            body[12 + i] = marker(0x7717, i);
+        }
+        let mut img = crate::encode::tag(9, &body);
+        crate::encode::pad8(&mut img, 0);
+        out.push(Aligned::new(&img));
+    }
+    out
+}
